@@ -15,6 +15,12 @@ def bases(rng: random.Random) -> Dict[int, Dict[str, Any]]:
     """Three pairwise non-isomorphic look-alikes: a graph, one bond order changed, one charge changed."""
     while True:
         b1 = gl.random_graph(rng, rng.randint(3, 7), nlab=2, maxhc=0, maxord=2, connected=True)
+        if rng.random() < 0.3 and b1["n"] <= 5:
+            # a centre made of two fragments of the same size that are not isomorphic to each other (one label differs)
+            twin = copy.deepcopy(b1)
+            k = rng.randrange(twin["n"])
+            twin["lab"][k] = 3 - twin["lab"][k] if twin["lab"][k] in (1, 2) else 1
+            b1 = gl.disjoint_union(b1, twin)
         es = [(u, v) for u in range(b1["n"]) for v in range(u + 1, b1["n"]) if b1["adj"][u][v]]
         if es:
             break
@@ -44,7 +50,7 @@ def cluster_case(inp):
     style = inp["attr"]
 
     def attr_of(iso):
-        return {"none": "x", "shared": "x", "perclass": f"a{iso}"}[style]
+        return {"none": "x", "absent": "x", "shared": "x", "perclass": f"a{iso}"}[style]
 
     shared: Dict[int, Any] = {}
     layout: Dict[str, Any] = {}
@@ -70,7 +76,8 @@ def cluster_case(inp):
     lib = [dict(entry(t["iso"]), **{"class": t["cls"]}) for t in inp["lib"]]
     items = inp["items"]
     runs = []
-    akey = None if style == "none" else "sig"
+    akey = None if style in ("none", "absent") else "sig"
+    bkey = {"none": None, "absent": "no-such-key"}.get(style, "sig")      # incremental classification without a pre-grouping attribute
     # one-shot clustering, in the given order and in a shuffled order
     for how in ("oneshot", "oneshot-shuffled"):
         data = [entry(i) for i in items]
@@ -87,12 +94,13 @@ def cluster_case(inp):
         if bs == -1:       # item by item through lib_check
             out = []
             for d in data:
-                d2, templ = bc.lib_check(d, templ, rule_key="gml", attribute_key="sig")
+                d2, templ = bc.lib_check(d, templ, rule_key="gml", attribute_key=bkey)
                 out.append(d2)
         elif bs == -2:     # cluster()
-            out, templ = bc.cluster(data, templ, rule_key="gml", attribute_key="sig")
+            out, templ = bc.cluster(data, templ, rule_key="gml", attribute_key=bkey)
         else:
-            out, templ = bc.fit(data, templ, rule_key="gml", attribute_key="sig", batch_size=bs or None)
+            # (fit bootstraps with GraphCluster, which needs the attribute on every entry when a key is named)
+            out, templ = bc.fit(data, templ, rule_key="gml", attribute_key=None if style == "absent" else bkey, batch_size=bs or None)
         allg = [proj(t["gml"]) for t in lib] + [proj(d["gml"]) for d in out]
         allc = [t["class"] for t in lib] + [d["class"] if d.get("class") is not None else -1 for d in out]
         runs.append({"how": f"incremental-bs{bs}", "g": allg, "cls": [int(c) for c in allc]})
@@ -131,7 +139,7 @@ def run(ctx: core.Ctx) -> None:
         if key in seen:
             continue
         seen.add(key)
-        inputs.append({"lib": h["lib"], "items": h["items"], "attr": rng.choice(["none", "shared", "perclass"]) if h["lib"] == [] else rng.choice(["shared", "perclass"]),
+        inputs.append({"lib": h["lib"], "items": h["items"], "attr": rng.choice(["none", "absent", "shared", "perclass"]),
                        "batch_sizes": [0, 1, 2, -1, -2] if not h["lib"] else [0, 1, 2, -1], "seed": rng.randrange(10 ** 9),
                        "share": rng.random() < 0.3})
     ctx.exhaustive = True
@@ -140,7 +148,7 @@ def run(ctx: core.Ctx) -> None:
     for _ in range(150 if q else 3000):
         n = rng.randint(6, 14)
         longer.append({"lib": rng.choice([[], [{"cls": 4, "iso": 2}], [{"cls": 1, "iso": 3}, {"cls": 9, "iso": 1}]]),
-                       "items": [rng.randint(1, 3) for _ in range(n)], "attr": rng.choice(["shared", "perclass"]),
+                       "items": [rng.randint(1, 3) for _ in range(n)], "attr": rng.choice(["shared", "perclass", "none", "absent"]),
                        "batch_sizes": [0, 3, 5, -1], "seed": rng.randrange(10 ** 9), "share": rng.random() < 0.3})
     core.run_stage(ctx, S("random-multisets", longer))
 
